@@ -156,12 +156,87 @@ def measure(case) -> dict:
     return {"labels": labels, "nontrivial": (bound >= 2 and len(positions) >= 2) or meta}
 
 
+def composite_needs_quoting(case) -> bool:
+    """an array/record input bound through an outer inputBinding whose prefix, items or joined value would
+    need shell quoting (StreamFlow leaves such composite tokens unquoted)"""
+    import shlex
+
+    def unsafe(s):
+        return isinstance(s, str) and shlex.quote(s) != s
+
+    for name, decl in case["doc"]["inputs"].items():
+        t = decl["type"]
+        if isinstance(t, list):
+            t = [x for x in t if x != "null"][0]
+        b = decl.get("inputBinding")
+        val = case["job"].get(name)
+        if not isinstance(t, dict) or t.get("type") not in ("array", "record") or b is None or val is None:
+            continue
+        if unsafe(b.get("prefix")):
+            return True
+        if t["type"] == "array" and "inputBinding" not in t:
+            items = [v for v in val if isinstance(v, str)]
+            if "itemSeparator" in b and val:
+                if unsafe(b["itemSeparator"].join(str(v) if not isinstance(v, dict) else "f" for v in val)):
+                    return True
+            elif any(unsafe(v) for v in items):
+                return True
+    return False
+
+
 def kind_for(case, symptom: str, detail: str) -> str:
     env = case["doc"].get("requirements", {}).get("EnvVarRequirement", {}).get("envDef", {})
+    if symptom in ("sf-fails-only", "argv-mismatch", "dump-unreadable") and composite_needs_quoting(case) and not any(
+            set(v) & set('$`"\\') for v in env.values()):
+        return "C30:composite-binding-not-shell-quoted"
     if symptom in ("env-mismatch", "sf-fails-only", "argv-mismatch", "dump-unreadable") and any(
             set(v) & set('$`"\\') for v in env.values()):
         return "C30:env-value-shell-interpreted"
     return "C30:" + symptom
+
+
+def known_shape_cases(seed: int = 1) -> list[dict]:
+    """minimal tools of the recorded findings (kept out of most of the random search so that it can go on)"""
+    from vf.cwlgen.gen_tools import DUMPTOOL, PYTHON
+
+    def tool(inputs, job, env=None, shape=""):
+        base = [PYTHON, DUMPTOOL] + (["--env=" + ",".join(env)] if env else [])
+        doc = {"cwlVersion": "v1.2", "class": "CommandLineTool", "baseCommand": base, "inputs": inputs,
+               "stdout": "dump.json",
+               "outputs": {"d": {"type": "string", "outputBinding": {"glob": "dump.json", "loadContents": True,
+                                                                     "outputEval": "$(self[0].contents)"}}},
+               "requirements": {"InlineJavascriptRequirement": {}}}
+        if env:
+            doc["requirements"]["EnvVarRequirement"] = {"envDef": env}
+        return {"shape": shape, "doc": doc, "job": job, "files": {}}
+
+    a = {"a": {"type": "string", "inputBinding": {"position": 1}}}
+    vals = ['a"b', "$HOME", "`echo x`", "x\\", 'q" && export VF_B="']
+    cases = [tool(a, {"a": "v"}, {"VF_A": vals[seed % len(vals)], "VF_B": "plain"}, "env-value"),
+             tool(a, {"a": "v"}, {"VF_A": vals[(seed + 1) % len(vals)]}, "env-value")]
+    arr = {"xs": {"type": {"type": "array", "items": "string"}, "inputBinding": {"position": 1}}}
+    cases.append(tool(arr, {"xs": ["x y", "z"]}, None, "composite-binding"))
+    cases.append(tool({"xs": {"type": {"type": "array", "items": "string"},
+                              "inputBinding": {"position": 1, "prefix": "--with space", "itemSeparator": ","}}},
+                      {"xs": ["a", "b;c"]}, None, "composite-binding"))
+    cases.append(tool(arr, {"xs": ["", "q'r", "$HOME"]}, None, "composite-binding"))
+    return cases
+
+
+def gen_known_shapes(tier):
+    cases = known_shape_cases(_seed())
+    if tier == "quick":
+        yield cases[0]
+        yield cases[2]
+    else:
+        yield from cases
+
+
+@prop.enumerated("known-shapes", gen_known_shapes, exhaustive=False)
+def check_known_shapes(case, rec):
+    rec.label("shape:" + case["shape"])
+    check_tool(case, rec)
+    rec.nontrivial(True)
 
 
 @prop.enumerated("tools", gen_tools, exhaustive=False)
